@@ -1,1 +1,6 @@
-fn main(){}
+//! gcsim: run ONE generated mutator program against a real MMTk instance in this process.
+fn main() {
+    let args = vcommon::Args::parse();
+    let cfg = vmbind::cfg::Config::from_args(&args);
+    vmbind::run(cfg);
+}
